@@ -156,7 +156,7 @@ def analyse_reject(rlines, verd, report, stats, samples):
             rej_thrown += 1
         site = "reject:%s:%s" % (dom, op.split(":")[0] if dom != "poly" else op)
         state = kv.get("state", "")
-        sub = state.split(":")[-1] if dom == "poly" and state.count(":") >= 2 else ""
+        sub = ":".join(state.split(":")[2:]) if dom == "poly" and state.count(":") >= 2 else ""
         if sub:
             site += ":" + sub
         rec = {"line": l}
